@@ -1,10 +1,11 @@
 _A = ['op_literal', 'op_drop', 'op_drop_n', 'op_dup', 'op_loop', 'op_jump_if_false', 'op_jump', 'op_negate', 'op_not',
       'op_add', 'op_sub', 'op_mul', 'op_div', 'op_and', 'op_or', 'op_less', 'op_less_equal', 'op_greater', 'op_greater_equal',
-      'op_equal', 'op_not_equal', 'op_constant', 'op_constant_long', 'op_send', 'op_receive']
+      'op_equal', 'op_not_equal', 'op_constant', 'op_constant_long', 'op_send', 'op_receive',
+      'op_push_handler', 'op_pop_handler', 'op_check_handler', 'op_continue_unwind', 'op_get_error', 'op_raise']
 
 UNIT = dict(
   name='ops',
-  properties=['C01', 'C16', 'C06', 'C07'],
+  properties=['C01', 'C16', 'C06', 'C07', 'C04'],
   shared=[],
   items=[
     ('laythe_core/src/object/mod.rs', ['enum ObjectKind']),
@@ -25,6 +26,12 @@ UNIT = dict(
     # R9: the fiber is a GC pointer copied into a local; in the model it is a field of Vm (allocator / root-context arguments dropped)
     ('R9', 'Vm::op_send', dict(pat='let mut fiber = self.fiber;\n      fiber.add_used_channel(self.gc.borrow_mut(), self, channel);', rep='self.fiber.add_used_channel(channel);', count=1)),
     ('R9', 'Vm::op_receive', dict(pat='let mut fiber = self.fiber;\n      fiber.add_used_channel(self.gc.borrow_mut(), self, channel);', rep='self.fiber.add_used_channel(channel);', count=1)),
+    ('R9', 'Vm::op_push_handler', dict(pat='''let start = &self.fiber.fun().chunk().instructions()[0] as *const u8;
+    let offset = self.ip.offset_from(start) as usize + jump;
+    let mut fiber = self.fiber;
+    fiber.push_exception_handler(self, offset, slot_depth);''', rep='''let offset = self.ip_offset() + jump;
+    self.fiber.push_exception_handler(offset, slot_depth);''', count=1)),
+    ('R7', 'Vm::op_pop_handler', dict(pat='pub(super) unsafe fn', rep='pub unsafe fn', optional=True)),
     # R4: Option::or_else with a closure that captures &mut self
     ('R4', 'Vm::op_send', dict(pat=r'(\w+)\.or_else\(\|\|\s*self\.fiber\.get_runnable\(\)\)', rep=r'(match \1 { Some(verif_w) => Some(verif_w), None => self.fiber.get_runnable() })', regex=True, optional=True)),
     ('R4', 'Vm::op_receive', dict(pat=r'(\w+)\.or_else\(\|\|\s*self\.fiber\.get_runnable\(\)\)', rep=r'(match \1 { Some(verif_w) => Some(verif_w), None => self.fiber.get_runnable() })', regex=True, optional=True)),
